@@ -200,3 +200,25 @@ def self_test():
     assert frags("CC.O.CC") == Counter({"CC": 2, "O": 1})
     assert demap("[CH3:1][OH:2]") == "CO"
     return n
+
+
+def loose_signature(mol):
+    """per connected component: the graph of (element, isotope, total H count) with every bond reduced to
+    'connected', plus the component's net charge.  RDKit writes some hypervalent species charge-separated
+    depending on how the hydrogens were spelled (O=[IH] parses to [O-][IH+], O=I does not); both have
+    the same loose signature.  Used only as a second opinion after the strict comparison failed."""
+    out = Counter()
+    m = demap_mol(mol)
+    for f in Chem.GetMolFrags(m, asMols=True, sanitizeFrags=False):
+        q = sum(a.GetFormalCharge() for a in f.GetAtoms())
+        rw = Chem.RWMol()
+        for a in f.GetAtoms():
+            na = Chem.Atom(a.GetAtomicNum())
+            na.SetIsotope(a.GetIsotope() * 100 + 0)
+            na.SetNoImplicit(True)
+            na.SetAtomMapNum(a.GetTotalNumHs() + 1)  # carry the H count as an invariant label
+            rw.AddAtom(na)
+        for b in f.GetBonds():
+            rw.AddBond(b.GetBeginAtomIdx(), b.GetEndAtomIdx(), Chem.BondType.SINGLE)
+        out[(Chem.MolToSmiles(rw.GetMol()), q)] += 1
+    return out
